@@ -52,6 +52,11 @@ def build_input(case):
     items = []
     for f in case["fields"]:
         d = data_of(f)
+        if case.get("bnames"):
+            # names and filenames given as UTF-8 bytes (accepted, and documented, by the header-parameter formatter): same encoding
+            # (a file name whose content type is to be guessed must be a str: mimetypes does not take bytes)
+            f = dict(f, name=f["name"].encode("utf-8"),
+                     filename=f["filename"] if (f["filename"] is None or f["ctype"] == "guess") else f["filename"].encode("utf-8"))
         if case["shape"] == "rf":
             rf = RequestField(f["name"], d, filename=f["filename"])
             rf.make_multipart(content_type=ctype_of(f))
@@ -333,6 +338,8 @@ def cases(rng, tier):
         c = {"boundary": b, "shape": shape, "fields": fs}
         if rng.random() < (0.5 if shape == "rf" else 0.15):
             c["twice"] = True          # the same input objects are encoded a second time
+        if rng.random() < 0.2 and all("\ud800" <= ch <= "\udfff" for ch in "") and not any(0xd800 <= ord(ch) <= 0xdfff for f in fs for ch in f["name"] + (f["filename"] or "")):
+            c["bnames"] = True
         out.append(c)
     # lone surrogates: UnicodeEncodeError
     for s in ["\ud800", "a\udfffb"]:
